@@ -664,7 +664,7 @@ def c17_labels(F, R):
         R.bad("first-char", "UNEXTRACTABLE: no `if <test of the first character> { return Err }` in LabelString::from_str", f["sp"])
         return
     for d in "0123456789":
-        v = _char_pred(guard["cond"], first, d)
+        v = _char_pred(guard["cond"], first, d, F)
         if v is True:
             R.ok(f"first-char|{d}", detail=f"a text starting with {d!r} is rejected as a label")
         elif v is False:
